@@ -187,11 +187,21 @@ func readChain(path string) ([][]*types.Transaction, error) {
 	return chain, sc.Err()
 }
 
+// pluginMode: "" (default plugins + addrfeeindex), "stat" (enableStat: a flag-based plugin), "mvcc" (enableMVCC: a
+// flag-based plugin; a node cannot execute height 1 with it, so only the genesis block is observed)
+func pluginMode() string { return os.Getenv("VERIF_C13_PLUGINS") }
+
 func newNode() (*testnode.Chain33Mock, *types.Chain33Config) {
 	cfg := testnode.GetDefaultConfig()
 	m := cfg.GetModuleConfig()
 	m.Consensus.Minerstart = false
 	m.Exec.EnableAddrFeeIndex = true
+	switch pluginMode() {
+	case "stat":
+		m.Exec.EnableStat = true
+	case "mvcc":
+		m.Exec.EnableMVCC = true
+	}
 	if d := os.Getenv("VERIF_TMP"); d != "" {
 		os.Setenv("TMPDIR", d)
 	}
@@ -238,10 +248,47 @@ func execLocal(mock *testnode.Chain33Mock, detail *types.BlockDetail, del bool) 
 	return fmt.Sprintf("reply:%v", resp.GetData())
 }
 
+var storePrefixes = []string{"CHAIN-", "Hash:", "Body:", "Header:", "HH:", "TD:", "Height:", "Seq:", "HashToSeq:", "LastSequence",
+	"blockLastHeight", "BlockChainVerKey", "push2subscribe:", "lastSeqNumPrefix:", "ParaSeq:", "HashToParaSeq:", "LastParaSequence",
+	"BodyHashToChunk:", "ChunkNumToHash:", "ChunkHashToNum:", "RecvChunkNumToHash:", "MaxSilChunkNum:", "MaxDeletedChunkNum:", "snowman"}
+
+// localDBDigest: every key/value of the chain database outside the block store proper (the persisted local write
+// sets of all heights so far, flag keys of the plugins included).
+func localDBDigest(mock *testnode.Chain33Mock) string {
+	it := mock.GetBlockChain().GetDB().Iterator(nil, types.EmptyValue, false)
+	defer it.Close()
+	var parts [][]byte
+outer:
+	for it.Rewind(); it.Valid(); it.Next() {
+		for _, p := range storePrefixes {
+			if bytes.HasPrefix(it.Key(), []byte(p)) {
+				continue outer
+			}
+		}
+		parts = append(parts, append([]byte{}, it.Key()...), append([]byte{}, it.Value()...))
+	}
+	return digest(parts...)
+}
+
+// genesisLine: what executing height 0 left in the database (the write set as it was really emitted when this
+// process created the chain) and what EventAddBlock / EventDelBlock return for it now.
+func genesisLine(mock *testnode.Chain33Mock) string {
+	g, err := mock.GetBlockChain().GetBlock(0)
+	if err != nil {
+		return "0 nogenesis"
+	}
+	return fmt.Sprintf("0 db:%s;l:%s;d:%s", localDBDigest(mock), execLocal(mock, g, false), execLocal(mock, g, true))
+}
+
 // priorActivity exercises everything process-global the execution path touches, with unrelated data.
 func priorActivity(r *gen.Rand) {
 	mock, cfg := newNode()
+	// ANOTHER chain: its own genesis and blocks, executed by the process-global plugin instances and drivers
 	chain := genChain(gen.New(r.U64()), cfg, 4)
+	if pluginMode() == "mvcc" {
+		chain = nil
+	}
+	_ = genesisLine(mock)
 	runChain(mock, cfg, chain, func(string) {})
 	mock.Close()
 	for i := 0; i < 2000; i++ {
@@ -330,8 +377,13 @@ func childMain() {
 	defer mock.Close()
 	w := bufio.NewWriter(os.Stdout)
 	defer w.Flush()
-	fmt.Fprintf(w, "env gomaxprocs=%d numcpu=%d\n", runtime.GOMAXPROCS(0), runtime.NumCPU())
+	fmt.Fprintf(w, "env gomaxprocs=%d numcpu=%d plugins=%q\n", runtime.GOMAXPROCS(0), runtime.NumCPU(), pluginMode())
+	fmt.Fprintln(w, "blk", genesisLine(mock))
+	if pluginMode() == "mvcc" {
+		chain = nil
+	}
 	runChain(mock, cfg, chain, func(s string) { fmt.Fprintln(w, "blk", s) })
+	fmt.Fprintln(w, "blk", fmt.Sprintf("%d db:%s", len(chain)+1, localDBDigest(mock)))
 }
 
 type childCfg struct {
@@ -339,6 +391,7 @@ type childCfg struct {
 	maxprocs int
 	cpus     int
 	warm     bool
+	plugins  string
 }
 
 func runChild(c childCfg, chainFile string) ([]string, string, error) {
@@ -360,6 +413,7 @@ func runChild(c childCfg, chainFile string) ([]string, string, error) {
 	if c.warm {
 		cmd.Env = append(cmd.Env, "VERIF_C13_WARM=1")
 	}
+	cmd.Env = append(cmd.Env, "VERIF_C13_PLUGINS="+c.plugins)
 	var stdout, stderr bytes.Buffer
 	cmd.Stdout, cmd.Stderr = &stdout, &stderr
 	err = cmd.Run()
@@ -408,17 +462,27 @@ func repeatedExecution() {
 		for _, mp := range []int{1, 2, 16} {
 			for _, cp := range []int{1, 4, 16} {
 				for _, w := range []bool{false, true} {
-					cfgs = append(cfgs, childCfg{fmt.Sprintf("gomaxprocs%d-cpus%d-warm%v", mp, cp, w), mp, cp, w})
+					cfgs = append(cfgs, childCfg{fmt.Sprintf("gomaxprocs%d-cpus%d-warm%v", mp, cp, w), mp, cp, w, ""})
+				}
+			}
+		}
+		for _, pl := range []string{"stat", "mvcc"} {
+			for _, mp := range []int{1, 16} {
+				for _, w := range []bool{false, true} {
+					cfgs = append(cfgs, childCfg{fmt.Sprintf("%s-gomaxprocs%d-warm%v", pl, mp, w), mp, 0, w, pl})
 				}
 			}
 		}
 	} else {
-		cfgs = []childCfg{{"gomaxprocs1-cpus1-fresh", 1, 1, false}, {"gomaxprocs16-cpus16-fresh", 16, 16, false},
-			{"gomaxprocs2-cpus4-warm", 2, 4, true}, {"gomaxprocs16-cpus1-warm", 16, 1, true}}
+		cfgs = []childCfg{{"gomaxprocs1-cpus1-fresh", 1, 1, false, ""}, {"gomaxprocs16-cpus16-fresh", 16, 16, false, ""},
+			{"gomaxprocs2-cpus4-warm", 2, 4, true, ""}, {"gomaxprocs16-cpus1-warm", 16, 1, true, ""},
+			{"stat-fresh", 2, 0, false, "stat"}, {"stat-warm", 2, 0, true, "stat"},
+			{"mvcc-fresh", 2, 0, false, "mvcc"}, {"mvcc-warm", 2, 0, true, "mvcc"}}
 	}
-	var ref []string
-	refName := ""
+	refs := map[string][]string{}
+	refNames := map[string]string{}
 	for _, c := range cfgs {
+		ref, refName := refs[c.plugins], refNames[c.plugins]
 		lines, env, err := runChild(c, chainFile)
 		out.Stat("child_runs", 1)
 		if err != nil {
@@ -435,11 +499,11 @@ func repeatedExecution() {
 				out.Pred("C13|PreExecBlock|differs-between-executions-in-one-process", fmt.Sprintf("%s block %s: %s", c.name, f[0], f[1]))
 				continue
 			}
-			out.Op(fmt.Sprintf("blk x %s %s", f[0], f[1]), f[1])
+			out.Op(fmt.Sprintf("blk plugins-%s %s %s", c.plugins, f[0], f[1]), f[1])
 			out.Stat("block_executions_compared", 1)
 		}
 		if ref == nil {
-			ref, refName = lines, c.name
+			refs[c.plugins], refNames[c.plugins] = lines, c.name
 			continue
 		}
 		for i := 0; i < len(ref) || i < len(lines); i++ {
@@ -461,7 +525,7 @@ func repeatedExecution() {
 
 // component names the first digest field in which two block lines differ.
 func component(a, b string) string {
-	names := map[string]string{"r": "receipts", "k": "state-kv-set", "s": "state-root", "t": "tx-root", "m": "multi-layer-root", "l": "local-kv-add", "d": "local-kv-del"}
+	names := map[string]string{"db": "local-database", "r": "receipts", "k": "state-kv-set", "s": "state-root", "t": "tx-root", "m": "multi-layer-root", "l": "local-kv-add", "d": "local-kv-del"}
 	fa := strings.Split(strings.SplitN(a+" ", " ", 2)[1], ";")
 	fb := strings.Split(strings.SplitN(b+" ", " ", 2)[1], ";")
 	for i := 0; i < len(fa) && i < len(fb); i++ {
